@@ -37,6 +37,7 @@ def check(model, tier):
     mutation.r09_3_attribute_writes(ctx)
     mutation.r09_4_no_shared_mutation(ctx)
     payload.r10_2_no_reset(ctx)
+    payload.r10_4_who_may_attach(ctx, rule="R09.6")
     run.assume("values of `Any`-typed fields (ColumnLiteral.value, LeafRelation.parameters) supplied by callers are hashable")
     run.assume("sqlalchemy constructs are used functionally (they return new objects)")
     return run
